@@ -44,6 +44,7 @@ fn main() {
         "dump" => |t| dump::dump(&t[1..]),
         "visit" => |t| dump::visit(&t[1..]),
         "emit" => |t| front::emit(&t[1..]),
+        "run" => |t| front::run(&t[1..]),
         _ => {
             eprintln!("unknown component {comp}");
             std::process::exit(2);
